@@ -60,3 +60,21 @@ CHECKS["C13"] = {
     ],
     "expected_probes": ["w2_runs"],
 }
+
+CHECKS["C15"] = {
+    "engine": "sched",
+    "harness": "c15",
+    "packages": ["algo", "cache", "cardinality"],
+    "level": "exploration",
+    "budget": {"quick": 20, "thorough": 600},
+    "rule": "one evaluation = one seeded run: random digraph (1-8 nodes with arbitrary uint64 ids, self loops, parallel and antiparallel edges, isolated nodes) built with the CSR or adjacency-map builder, cache capacity in {-1,0,1,2,3,4,n,n+2,100}, then a history of 2-10 queries (CanReach, ReachOf..., ReachSliceOf..., OrReach, XorReach; both directions; members not in the graph) against one ReachabilityCache. Every answer is compared with a BFS on the raw edge list; the SCC partition and component DAG are checked at construction. "
+            "Non-trivial = at least one query was answered with the help of a cache hit or both caches ended full (eviction pressure); distinct = distinct workloads among those (hash), union over workers.",
+    "real": ["algo.StronglyConnectedComponents / ComponentGraph / ReachabilityCache", "cache.Sieve", "cardinality", "container CSR + adjacency builders"],
+    "stubs": [],
+    "assumptions": [
+        "the stated quantifier (histories x capacities) is a single caller; concurrent callers of one ReachabilityCache are not promised by the code and are not explored",
+        "OrReach/XorReach follow their doc comments: the queried node itself is removed from the reach before it is combined",
+        "sampling, not enumeration",
+    ],
+    "expected_probes": ["runs_with_cache_hits", "runs_with_full_caches"],
+}
